@@ -28,7 +28,7 @@ SHAPES = {"degenerate": (1, 1), "tiny": (3, 5), "odd": (37, 13), "large": (20011
 
 
 def REQUIRED(tier):
-    return [f"kernel:{k}" for k in KERNELS] + ["configs_run", "probe_runs", "probe_wrong", "canary_audits", "pyfunc_checks", "shape:large", "shape:degenerate", "affinity_pinned_cases", "kernel:lib_subband", "shape:chan1300", "kernel:lib_push_data", "kernel:lib_downsample", "kernel:moments_cont", "kernel:lib_ts_downsample", "kernel:lib_reader_reuse"]
+    return [f"kernel:{k}" for k in KERNELS] + ["configs_run", "probe_runs", "probe_wrong", "canary_audits", "pyfunc_checks", "shape:large", "shape:degenerate", "affinity_pinned_cases", "kernel:lib_subband", "shape:chan1300", "kernel:lib_push_data", "kernel:lib_downsample", "kernel:moments_cont", "kernel:lib_ts_downsample", "kernel:lib_reader_reuse", "regime:library_read_of_2^22_samples_x_channels"]
 
 
 def EXTRA_COVERAGE(tier, tot):
@@ -61,6 +61,9 @@ def cases(tier, seed):
         yield {"kernel": "lib_ts_downsample", "factor": f, "seed": int(seed) * 1009 + 9200 + i, "tier": tier}
     for i, tf in enumerate((3, 4, 5, 7)):
         yield {"kernel": "lib_downsample", "tfactor": tf, "seed": int(seed) * 1009 + 9100 + i, "tier": tier}
+    # reads of 2^22 and more samples x channels (the default gulp on a 256-channel file): whatever a large-block path does, the product is the same file
+    for i, (tf, ff) in enumerate(((2, 2), (3, 1))):
+        yield {"kernel": "lib_downsample", "tfactor": tf, "ffactor": ff, "nchans": 256, "N": 2 * 16384 + 1000 + 37 * i, "seed": int(seed) * 1009 + 9150 + i, "tier": tier}
     for nch in (9, 10, 12, 16):
         yield {"kernel": "lib_subband", "nchans": nch, "reps": reps, "seed": int(seed) * 1009 + 9000 + nch, "tier": tier}
     for i, (nch, nsub, nbands) in enumerate(((48, 1, 5), (64, 2, 12), (64, 4, 24), (64, 32, 5), (104, 52, 32))):
@@ -304,20 +307,25 @@ def _lib_downsample(case, ctx):
 
     rng = np.random.default_rng([case["seed"], 31])
     nch, N, tf = 8, 1000 + int(rng.integers(0, 50)), int(case["tfactor"])
+    ff = int(case.get("ffactor", 1))
+    big = "nchans" in case
+    if big:
+        nch, N = int(case["nchans"]), int(case["N"])
+        ctx.count("regime:library_read_of_2^22_samples_x_channels")
     d = tempfile.mkdtemp(prefix="c19d-", dir=ctx.tmp)
     X = rng.integers(0, 200, size=(N, nch)).astype(np.uint8)
     path = os.path.join(d, "in.fil")
     sigfile.write_fil(path, X, 8, fch1=1500.0, foff=-10.0, tsamp=1e-3)
     m = N // tf
-    want = np.trunc(X[: m * tf].astype(np.float64).reshape(m, tf, nch).mean(axis=1))
+    want = np.trunc(X[: m * tf].astype(np.float64).reshape(m, tf, nch // ff, ff).mean(axis=(1, 3)))
     ref = None
-    for t in (1, 2, 3, 4, 6, 7, 8, 11, 12, 16):
-        for gulp in (64, 16384):
+    for t in ((1, 2, 4, 7, 16) if big else (1, 2, 3, 4, 6, 7, 8, 11, 12, 16)):
+        for gulp in ((16384,) if big else (64, 16384)):
             ctx.evaluated(); ctx.count("kernel:lib_downsample")
             one = dict(case, config=[t, gulp])
             out = os.path.join(d, f"o{t}_{gulp}.fil")
             try:
-                sched.run_config(min(t, NUMBA_THREADS), 0, lambda: FilReader(path).downsample(tf, 1, out, gulp=gulp, quiet=True, description="v"))
+                sched.run_config(min(t, NUMBA_THREADS), 0, lambda: FilReader(path).downsample(tf, ff, out, gulp=gulp, quiet=True, description="v"))
             except Exception as exc:  # noqa: BLE001
                 ctx.violation(f"kernel-raised:lib_downsample:{type(exc).__name__}@{exc_site(exc)}", f"threads={t} gulp={gulp}: {fmt_exc(exc)}", one)
                 return
@@ -326,7 +334,7 @@ def _lib_downsample(case, ctx):
                 ref = raw
                 got = np.frombuffer(raw, dtype=np.uint8).astype(np.float64)
                 if got.size != want.size or np.any(np.abs(got.reshape(want.shape) - want) >= 1.0):
-                    ctx.violation("wrong-result:Filterbank.downsample", f"threads={t} gulp={gulp}: {got.size // nch} output samples for {N}/{tf}, or values off the group means", one)
+                    ctx.violation("wrong-result:Filterbank.downsample", f"threads={t} gulp={gulp}: {got.size // max(1, nch // ff)} output samples for {N}/{tf}, or values off the group means", one)
                     return
             elif raw != ref:
                 ctx.violation("schedule-dependent:Filterbank.downsample", f"tfactor={tf}: the product written with {t} threads (gulp {gulp}) differs from the one written with 1 thread ({len(raw)} vs {len(ref)} data bytes)", one)
